@@ -701,6 +701,20 @@ def build_record(spec: dict) -> Built:
 
 # --------------------------------------------------------------------------- measures
 
+def _finish_protoclusters(draw: Any, protos: list, genes: list) -> None:
+    """ defining genes: a CORE function with the product on the anchor genes, as rule detection leaves it """
+    for proto in protos:
+        anchors_of = proto.pop("_anchors")
+        proto.pop("_core_arc")
+        if proto["sideloaded"]:
+            continue
+        for gi in anchors_of:
+            entry = ["CORE", "rule-based-clusters", draw(st.sampled_from(["PKS_KS", "AMP-binding", "Condensation"])),
+                     proto["product"]]
+            if entry not in genes[gi]["functions"]:
+                genes[gi]["functions"].append(entry)
+
+
 def _is_span(loc: dict) -> bool:
     return gen.is_span(loc)
 
@@ -794,6 +808,20 @@ def spec_classes(spec: dict) -> list:
         classes.append("misc_span")
     if spec["header"].get("reference"):
         classes.append("header_reference")
+    if spec.get("family") == "many_areas":
+        classes.append("family_many_areas")
+    if len(protos) >= 10:
+        classes.append("protoclusters_10_or_more")
+    if len(subs) >= 10:
+        classes.append("subregions_10_or_more")
+    values = [d.get(key) for g in genes for d in g.get("domains") or [] for key in ("evalue", "score")]
+    values += [v for g in genes for entry in g.get("secmet") or [] for v in entry[1:3]]
+    if any(v == 0 for v in values if v is not None):
+        classes.append("zero_evalue_or_score")
+    if any(v is not None and v < 0 for v in values):
+        classes.append("negative_score")
+    if any(v is None for v in values):
+        classes.append("domain_without_evalue_or_score")
     return classes
 
 
@@ -801,7 +829,8 @@ def spec_is_nontrivial(spec: dict, classes: Optional[list] = None) -> bool:
     classes = set(classes if classes is not None else spec_classes(spec))
     interesting = {"gene_span", "domain_span", "protocluster_span", "subregion_span", "misc_span",
                    "protocluster_equal_coordinates", "subregion_equal_coordinates", "prepeptide_reverse",
-                   "module_multi_cds", "cand_equal_coordinates", "region_span", "cand_span", "module_span"}
+                   "module_multi_cds", "cand_equal_coordinates", "region_span", "cand_span", "module_span",
+                   "cand_members_cross_digits", "region_members_cross_digits", "zero_evalue_or_score"}
     return bool(classes & interesting)
 
 
@@ -847,7 +876,17 @@ def _nice_float(low: float, high: float, digits: int) -> st.SearchStrategy:
 
 
 def _evalue() -> st.SearchStrategy:
-    return st.tuples(st.integers(100, 999), st.integers(1, 150)).map(lambda p: float(f"{p[0] / 100:.2f}E-{p[1]:02d}"))
+    """ e-values at the precision of their GenBank text (.2E): ordinary ones, and the boundary values tools report:
+        exactly 0.0 (HMMER once the value underflows), the smallest doubles, 1.0, values above 1 """
+    ordinary = st.tuples(st.integers(100, 999), st.integers(1, 150)).map(lambda p: float(f"{p[0] / 100:.2f}E-{p[1]:02d}"))
+    boundary = st.sampled_from([0.0, 0.0, 5e-235, 1e-300, 4.94e-324, 1.0, 10.0, 3.5, 0.01])
+    return st.one_of(ordinary, ordinary, ordinary, boundary)
+
+
+def _score() -> st.SearchStrategy:
+    """ bit scores: ordinary ones with one decimal, and exactly 0.0, negative ones, whole numbers, large ones """
+    boundary = st.sampled_from([0.0, 0.0, -0.1, -12.5, 1.0, 100.0, 25.0, 12345.6, 0.1])
+    return st.one_of(_nice_float(1, 900, 1), _nice_float(1, 900, 1), _nice_float(1, 900, 1), boundary)
 
 
 @st.composite
@@ -883,7 +922,10 @@ def _domains(draw, gene: dict, aminos: int, gindex: int, want_modular: bool) -> 
             st.sampled_from(["pfam", "pfam", "generic", "tigr", "rre", "motif", "modular"]))
         start = draw(gen.coord(0, aminos - 1))
         end = draw(gen.coord(start + 1, aminos))
-        dom: dict = {"kind": kind, "aa": [start, end], "evalue": draw(_evalue()), "score": draw(_nice_float(1, 900, 1))}
+        dom: dict = {"kind": kind, "aa": [start, end], "evalue": draw(_evalue()), "score": draw(_score())}
+        if kind in ("generic", "motif") and draw(_one_in(6)):
+            # a tool that reports no value at all (not the same as a value of zero)
+            dom[draw(st.sampled_from(["evalue", "score"]))] = None
         name = gene["name"]
         if kind == "modular":
             hit_id, domain_name = draw(st.sampled_from(MODULAR))
@@ -1011,7 +1053,7 @@ def _gene_details(draw, gene: dict, gindex: int, circular: bool, modular_bias: b
     secmet = []
     for index in range(draw(st.sampled_from([0, 0, 1, 2]))):
         secmet.append([draw(st.sampled_from(["AMP-binding", "PKS_KS", "Condensation", "LANC_like", "p450"])) + ("" if index == 0 else str(index)),
-                       draw(_evalue()), draw(_nice_float(1, 900, 1)), draw(st.integers(0, 400)),
+                       draw(_evalue()), draw(_score()), draw(st.sampled_from([0, 1, 12, 400])),
                        draw(st.sampled_from(["rule-based-clusters", "cassis"]))])
     gene["secmet"] = secmet
     want_modular = modular_bias and not draw(_one_in(3))
@@ -1202,13 +1244,94 @@ def _modules(draw, genes: list, length: int) -> list:
 
 
 @st.composite
+def _many_areas(draw, length: int, circular: bool) -> tuple:
+    """ the "two digit" family: 10-14 small genes in a row, a protocluster on each (some genes carry a second one
+        of another product: chemical hybrids), neighbourhoods that reach the neighbour for a drawn share of the
+        adjacent pairs (neighbouring candidates over consecutive numbers, e.g. 9|10), optionally 10+ subregions.
+        Every number qualifier (protocluster, candidate, subregion, region numbers and the lists of them) then crosses
+        the boundary between one and two digits.  Returns (genes, protoclusters with _anchors/_core_arc, subregions). """
+    count = draw(st.integers(10, 14))
+    slot = length // count
+    first = draw(st.integers(0, max(0, slot // 4)))
+    genes = []
+    for index in range(count):
+        size = draw(st.integers(9, max(9, slot // 3)))
+        start = first + index * slot + draw(st.integers(0, max(0, slot // 6)))
+        end = min(length, start + size)
+        strand = draw(st.sampled_from([1, -1]))
+        genes.append({"name": f"g{index}", "loc": {"parts": [[start, end]], "strand": strand, "kind": "simple"}})
+    joined = draw(st.sampled_from([0, 1, 2, 2, 3]))     # how many of four adjacent pairs share their neighbourhoods
+    protos = []
+    used = set()
+    for index, gene in enumerate(genes):
+        start, end = gene["loc"]["parts"][0]
+        reach = draw(st.integers(0, 3)) < joined
+        products = [draw(st.sampled_from(PRODUCTS))]
+        if draw(_one_in(5)):
+            products.append(draw(st.sampled_from([p for p in PRODUCTS if p != products[0]])))
+        for extra, product in enumerate(products):
+            nrange = (slot // 2 + slot // 8 if reach else slot // 10) + extra + draw(st.integers(0, 2))
+            arc = extend_arc(start, end - start, nrange, nrange, length, circular)
+            while arc in used:      # equal coordinates are a class of their own, not wanted here
+                nrange += 1
+                arc = extend_arc(start, end - start, nrange, nrange, length, circular)
+            used.add(arc)
+            strand = gene["loc"]["strand"]
+            loc = arc_to_area(arc[0], arc[1], length, strand)
+            protos.append({"core": {"parts": [[start, end]], "strand": strand}, "loc": loc, "product": product,
+                           "sideloaded": False, "nrange": nrange, "tool": "rule-based-clusters",
+                           "category": draw(st.sampled_from(CATEGORIES)), "cutoff": draw(st.sampled_from([0, slot // 10, 20000])),
+                           "rule": draw(st.sampled_from(RULES)), "t2pks": None,
+                           "_core_arc": [start, end - start], "_anchors": [index]})
+    subs = []
+    if draw(st.booleans()):
+        taken = set()
+        for index in range(draw(st.integers(10, 13))):
+            gene = genes[index % count]
+            start, end = gene["loc"]["parts"][0]
+            low = max(0, start - draw(st.integers(0, slot // 8 + 1)) - index // count)
+            high = min(length, end + draw(st.integers(0, slot // 8 + 1)))
+            while (low, high) in taken:
+                high = min(length, high + 1)
+                low = max(0, low - 1)
+            taken.add((low, high))
+            sideloaded = draw(_one_in(4))
+            subs.append({"loc": {"parts": [[low, high]], "strand": None}, "sideloaded": sideloaded,
+                         "label": draw(st.sampled_from(["", f"g{index % count}", "Type I PKS"])),
+                         "tool": "external tool" if sideloaded else "cassis", "extra": draw(_details()) if sideloaded else {}})
+    return genes, protos, subs
+
+
+@st.composite
+def _many_areas_spec(draw, circular: bool, always_regions: bool) -> dict:
+    length = draw(st.integers(2400, 6000))
+    genes, protos, subs = draw(_many_areas(length, circular))
+    modular_bias = draw(_one_in(3))
+    seen = {repr(gene["loc"]["parts"]) + str(gene["loc"]["strand"]) for gene in genes}
+    for gindex, gene in enumerate(genes):
+        seen.discard(repr(gene["loc"]["parts"]) + str(gene["loc"]["strand"]))
+        draw(_gene_details(gene, gindex, circular, modular_bias, 0, seen))
+    _finish_protoclusters(draw, protos, genes)
+    return {"L": length, "circular": circular, "taxon": "bacteria", "seed": draw(st.integers(0, 999)),
+            "header": draw(_header()), "source": True, "genes": genes, "misc": [], "modules": draw(_modules(genes, length)),
+            "protoclusters": protos, "subregions": subs, "candidates": True,
+            "regions": always_regions or not draw(_one_in(10)),
+            "candidate_extras": draw(st.sampled_from([[], [], [["CC(=O)O", None]]])), "family": "many_areas"}
+
+
+@st.composite
 def record_specs(draw, *, max_len: int = 5000, max_genes: int = 8, max_protoclusters: int = 5,
                  max_subregions: int = 3, min_areas: int = 0, force_circular: Optional[bool] = None,
-                 always_regions: bool = False) -> dict:
+                 always_regions: bool = False, many_areas: Optional[bool] = None) -> dict:
     """ Options: max_len / max_genes / max_protoclusters / max_subregions bound the sizes; min_areas forces at
         least that many protoclusters+subregions; force_circular fixes the topology; always_regions makes
-        candidate and region creation unconditional (C12 wants regions). """
+        candidate and region creation unconditional (C12 wants regions); many_areas forces (True) or forbids
+        (False) the family with 10-14 genes/protoclusters (default: one record in five). """
     circular = draw(st.booleans()) if force_circular is None else force_circular
+    if many_areas is None:
+        many_areas = draw(_one_in(5))
+    if many_areas:
+        return draw(_many_areas_spec(circular, always_regions))
     length = draw(st.one_of(st.integers(300, 900), st.integers(300, max_len)))
     taxon = "bacteria" if circular else draw(st.sampled_from(["bacteria", "bacteria", "fungi"]))
     size_hint = draw(st.sampled_from([30, 60, 120, max(30, length // 8)]))
@@ -1235,17 +1358,7 @@ def record_specs(draw, *, max_len: int = 5000, max_genes: int = 8, max_protoclus
         n_protos = min_areas - n_subs
     allow_ties = draw(_one_in(16))
     protos = draw(_protoclusters(genes, length, circular, n_protos, allow_ties))
-    # defining genes: a CORE function with the product on the anchor genes, as rule detection leaves it
-    for proto in protos:
-        anchors_of = proto.pop("_anchors")
-        proto.pop("_core_arc")
-        if proto["sideloaded"]:
-            continue
-        for gi in anchors_of:
-            entry = ["CORE", "rule-based-clusters", draw(st.sampled_from(["PKS_KS", "AMP-binding", "Condensation"])),
-                     proto["product"]]
-            if entry not in genes[gi]["functions"]:
-                genes[gi]["functions"].append(entry)
+    _finish_protoclusters(draw, protos, genes)
     subs = draw(_subregions(length, circular, n_subs, anchors, allow_ties))
     modules = draw(_modules(genes, length))
     make = True if always_regions else not draw(_one_in(10))
